@@ -56,7 +56,7 @@ func (fx *Fx) iteratorCall(st *State, inner, outer *ast.CallExpr) []callResult {
 	}
 	spec := fx.v.contracts.Funcs[key]
 	if spec == nil || spec.Iter == nil {
-		panic(unsupported("iterator " + key + " has no iter contract"))
+		return fx.inlineReturnedClosure(st, key, fd, recvExpr, inner, outer)
 	}
 	if len(outer.Args) != 1 {
 		panic(unsupported("iterator applied to several arguments"))
@@ -175,4 +175,33 @@ func (fx *Fx) iteratorCall(st *State, inner, outer *ast.CallExpr) []callResult {
 	}
 	_ = strings.TrimSpace
 	return results
+}
+
+// inlineReturnedClosure handles f(args...)(yield) where f's body is `return func(yield ...) {...}` and f has no iter
+// contract: the returned closure's body is executed in place, with f's parameters bound to the arguments and yield
+// bound to the argument closure. Loops of f are cut at f's own invariants plus the caller's `invariant f.N` clauses.
+func (fx *Fx) inlineReturnedClosure(st *State, key string, fd *FuncDeclInfo, recvExpr ast.Expr, inner, outer *ast.CallExpr) []callResult {
+	rets := singleReturn(fd.decl)
+	if len(rets) != 1 {
+		panic(unsupported("iterator " + key + " has no iter contract and is not a single `return func...`"))
+	}
+	lit, ok := ast.Unparen(rets[0]).(*ast.FuncLit)
+	if !ok {
+		panic(unsupported("iterator " + key + " has no iter contract and does not return a function literal"))
+	}
+	var args []Val
+	for _, a := range inner.Args {
+		args = append(args, fx.eval(st, a, false))
+	}
+	var yargs []Val
+	for _, a := range outer.Args {
+		yargs = append(yargs, fx.eval(st, a, false))
+	}
+	// bind f's parameters
+	savedPkg := fx.pkg
+	fx.pkg = fd.pkg
+	fx.bindParams(st, fd, nil, args)
+	fx.pkg = savedPkg
+	// run the literal's body as if it were f's body (so that loop ordinals and contracts are f's)
+	return fx.inlineBody(st, fd.pkg, lit.Type, lit.Body, &FuncDeclInfo{key: fd.key, decl: fd.decl, obj: fd.obj, pkg: fd.pkg, litParams: true}, nil, yargs, fd.pkg.info)
 }
